@@ -43,8 +43,9 @@ def gen_cases(rng, tier, drift):
                 # last-yielded-worker cross-check happens to agree
                 if Ws != Wl:
                     cfg = si.gen_cfg(rng, kinds=("iter",))
-                    cfg.update(bs=rng.choice([1, 2]), sizes=[rng.randint(3, 5) for _ in range(4)], stateful=False, rewind=False, eager=False)
-                    cases.append(dict(cfg=cfg, Ws=Ws, Wl=Wl, k=rng.choice([1, 2, 3]), empty=False))
+                    cfg.update(bs=rng.choice([1, 2]), sizes=[rng.randint(3, 5) for _ in range(4)], stateful=False, rewind=False, eager=False, I=1)
+                    ks = [k for k in (1, 2, 3) if Ws == 0 or Wl == 0 or (k - 1) % Ws == (k - 1) % Wl]
+                    cases.append(dict(cfg=cfg, Ws=Ws, Wl=Wl, k=rng.choice(ks), empty=False))
         for W in range(4):
             cfg = si.gen_cfg(rng, kinds=("map",))
             cfg["n"], cfg["bs"] = rng.randint(3, 8), 2
